@@ -892,6 +892,12 @@ def gen_builtins(quick, seed):
                 out.append(ps("bi:%d" % n, shadow + "\n" + call + "\nprobe(message, _, get_key(message), get_key(_))",
                               pt={"meas": "m", "tags": {"tg": "tv"}, "fields": {"fi": 7, "fs": " sv ", "message": msg, "a.b": "dotted"}},
                               tag="the _ alias with a shadowing variable"))
+    # numeric text is read as a DECIMAL floating-point spelling, whatever it looks like (leading zeros, base prefixes, signs, blanks)
+    for txt in ["010", "0000123", "-017", "0755", "0x1f", "0b101", "0o17", "089", "012.9", "1e2", " 12", "12 ", "+5", ".5", "5.", "1_000", "0X1F", "00", "-0", "1e-2", "12abc"]:
+        for T in ["int", "float", "bool", "str"]:
+            n += 1
+            out.append(ps("bi:%d" % n, 'cast(k, "%s")\nprobe(k)' % T, pt={"meas": "m", "tags": {"tg": "tv"}, "fields": {"k": txt, "fi": 7}},
+                          tag="cast of numeric-looking text"))
     # sequences: the return register is not stale between calls; bystanders untouched
     J1, J2 = '"[1,\\"a\\",null]"', '"{\\"a\\":{\\"b\\":[true]}}"'     # texts of the model's JSON catalog
     seqs = ['a = load_json(%s)\na[0] = 99\nb = load_json(%s)\nprobe(a, b)' % (J1, J1),
